@@ -226,6 +226,20 @@ def serving(ae):
         t.join(5)
 
 
+def is_timeout(error):
+    """Time-outs (library receive time-out, socket time-out of the reference peer) are not
+    verdicts on a loaded machine: callers re-run the case alone before reporting anything."""
+    if error is None:
+        return False
+    try:
+        from pynetdicom2 import exceptions
+        if isinstance(error, exceptions.DCMTimeoutError):
+            return True
+    except ImportError:
+        pass
+    return isinstance(error, (real_socket.timeout, TimeoutError)) or 'timed out' in str(error)
+
+
 def provider_threads():
     return [t for t in threading.enumerate() if isinstance(t, dulprovider.DULServiceProvider)
             and t.is_alive()]
